@@ -106,12 +106,21 @@ func c03Exec(c *Sexp) Outcome {
 func init() {
 	register(&Prop{
 		ID: "C03", Cmd: "parse",
-		Rule: "random left-recursion-free grammars (1-5 nonterminals whose references only go to later rules, rules and random sub-terms memoized) x inputs sampled/mutated/uniform; the same grammar is also built with a random subset (or all) of its Memoize wrappers removed; results, returned error, furthest-error position, call counts and per-position body runs are compared (real vs real, and both vs the Lean model). Non-trivial = at least one cache hit; distinct = distinct case text.",
+		Rule: "random left-recursion-free grammars (1-5 nonterminals whose references only go to later rules, rules and random sub-terms memoized) x inputs sampled/mutated/uniform, every sixth case from a family in which an ambiguous memoized parser (3-7 alternatives) is consumed by several list-extending combinators at one position; the same grammar is also built with a random subset (or all) of its Memoize wrappers removed; results, returned error, furthest-error position, call counts and per-position body runs are compared (real vs real, and both vs the Lean model). Non-trivial = at least one cache hit; distinct = distinct case text.",
 		Count: quickN(6000, 60000),
 		Gen: func(rng *rand.Rand, tier string, i int) *Sexp {
-			g := genCertified(rng, genOpts{lrf: true, subMemo: 0.45, sentence: 0.5, maxRules: 5, nameAlts: rng.Intn(4) == 0})
-			in := sampleInput(rng, g, alphabetOf(g), 10)
-			c := parseCaseSexp(g, in)
+			var c *Sexp
+			var g genGrammar
+			if i%6 == 5 {
+				// an ambiguous memoized parser (3-7 alternatives: a result LIST with spare capacity) consumed by several
+				// list-extending combinators at one position, left-recursion-free
+				c = c07TemplateLR(rng, false)
+				g = genGrammar{findArg(c, "env"), findArg(c, "root")[0]}
+			} else {
+				g = genCertified(rng, genOpts{lrf: true, subMemo: 0.45, sentence: 0.5, maxRules: 5, nameAlts: rng.Intn(4) == 0})
+				in := sampleInput(rng, g, alphabetOf(g), 10)
+				c = parseCaseSexp(g, in)
+			}
 			ks := map[int]bool{}
 			for _, e := range g.env {
 				collectMemoKs(e, ks)
